@@ -16,7 +16,10 @@ from functools import cmp_to_key
 
 from ufl.argument import Argument
 from ufl.coefficient import Coefficient
+from ufl.constant import Constant
+from ufl.constantvalue import Zero
 from ufl.core.multiindex import FixedIndex, MultiIndex
+from ufl.geometry import GeometricQuantity
 from ufl.variable import Label
 
 
@@ -93,6 +96,41 @@ def _cmp_argument(a, b):
         return 0
 
 
+def _sortable(key):
+    """Make a (nested) domain sort key totally ordered."""
+    # The key of a mesh ends with its coordinate element, which defines no "<":
+    # use its repr, so that cmp_expr cannot raise
+    if isinstance(key, tuple):
+        return tuple(_sortable(k) for k in key)
+    return key if isinstance(key, (int, str)) else repr(key)
+
+
+def _cmp_constant(a, b):
+    """Cmp constant."""
+    # Compare the numbers as numbers: repr prints the count and the domain id in
+    # decimal, and "9" > "10" as strings, so the order of two constants (and with
+    # it the signature) would change when a global counter passes a power of ten
+    x = (_sortable(a._ufl_domain._ufl_sort_key_()), a._ufl_shape, a._count)
+    y = (_sortable(b._ufl_domain._ufl_sort_key_()), b._ufl_shape, b._count)
+    return -1 if x < y else (1 if x > y else 0)
+
+
+def _cmp_geometric_quantity(a, b):
+    """Cmp geometric quantity (same type)."""
+    # As for constants: compare the domain ids as numbers, not as decimal strings
+    x = _sortable(a._domain._ufl_sort_key_())
+    y = _sortable(b._domain._ufl_sort_key_())
+    return -1 if x < y else (1 if x > y else 0)
+
+
+def _cmp_zero(a, b):
+    """Cmp zero."""
+    # Careful not to depend on the counts of the free indices, see _cmp_multi_index
+    x = (a.ufl_shape, a.ufl_index_dimensions)
+    y = (b.ufl_shape, b.ufl_index_dimensions)
+    return -1 if x < y else (1 if x > y else 0)
+
+
 def _cmp_terminal_by_repr(a, b):
     """Cmp terminal by repr."""
     # The cost of repr on a terminal is fairly small, and bounded
@@ -107,6 +145,8 @@ _terminal_cmps[MultiIndex._ufl_typecode_] = _cmp_multi_index
 _terminal_cmps[Argument._ufl_typecode_] = _cmp_argument
 _terminal_cmps[Coefficient._ufl_typecode_] = _cmp_coefficient
 _terminal_cmps[Label._ufl_typecode_] = _cmp_label
+_terminal_cmps[Constant._ufl_typecode_] = _cmp_constant
+_terminal_cmps[Zero._ufl_typecode_] = _cmp_zero
 
 
 def cmp_expr(a, b):
@@ -130,6 +170,8 @@ def cmp_expr(a, b):
         if a._ufl_is_terminal_:
             if x in _terminal_cmps:
                 c = _terminal_cmps[x](a, b)
+            elif isinstance(a, GeometricQuantity):
+                c = _cmp_geometric_quantity(a, b)
             else:
                 c = _cmp_terminal_by_repr(a, b)
 
